@@ -834,6 +834,43 @@ Definition pair_hist (checked : bool) (ops : list pkg_op) (alt : option bytes) (
   conn_loop unit exch (ex_ans checked ops alt e416) ex_method ex_blen (fun _ => 0) (fun _ e => ex_want e)
             p drain secure tt COpen 0 1 exs.
 
+(** ---- the END of an HTTP/1 connection, and a body that is delimited by it ----
+    [handle_connection] leaves the request loop by [break] — [accept] failed, [continue_accepting] said no, or the future
+    of an HTTP/1 request reported that the connection cannot be reused ([close_delimited], a request body that could not
+    be drained) — and then runs [http.shutdown().await] = [Encryption::shutdown]: on TLS rustls sends the close_notify
+    alert before the socket is shut down; on plain TCP the FIN is all there is.  [shutdown = false] is the variant that
+    leaves the loop by [return Ok(())] instead: the socket is dropped, the TCP stream ends WITHOUT close_notify.
+    The client (RFC 8446 6.1: without close_notify the end of the data is not authenticated; a strict HTTP/1.1 client —
+    hyper, curl — reports "peer closed connection without sending TLS close_notify"): a body that only the end of the
+    connection delimits (no [content-length]; not a HEAD answer) is complete iff that end is an orderly one. *)
+Inductive conn_end := EOrderly | ETruncated.
+Definition h1_conn_end (secure shutdown : bool) : conn_end :=
+  if secure && negb shutdown then ETruncated else EOrderly.
+(** is the body of [r] (request method [m]) delimited by the end of the connection? *)
+Definition end_delimited (m : N) (r : resp) : bool := negb (m =? M_HEAD) && negb (hm_has H_CL (rs_headers r)).
+Definition receive_end (m : N) (ce : conn_end) (w : wreply) : wreply :=
+  match w, ce with
+  | WClosed r, ETruncated => if end_delimited m r then WBroken else w
+  | _, _ => w
+  end.
+Definition oreceive_end (m : N) (ce : conn_end) (o : outcome wreply) : outcome wreply :=
+  match o with Ok w => Ok (receive_end m ce w) | Err e => Err e | Panic => Panic end.
+
+(** [send_ex] with the end of the connection: what the client of the exchange has in hand when the connection is over *)
+Definition send_ex_end (shutdown : bool) (checked : bool) (ops : list pkg_op) (alt : option bytes) (e416 : resp)
+    (p : proto) (secure : bool) (e : exch) : outcome wreply :=
+  match p with
+  | H1 => oreceive_end (ex_method e) (h1_conn_end secure shutdown) (send_ex checked ops alt e416 p secure e)
+  | H2 => send_ex checked ops alt e416 p secure e         (* END_STREAM ends the body; the connection goes on *)
+  end.
+Definition ex_ans_end (shutdown : bool) (checked : bool) (ops : list pkg_op) (alt : option bytes) (e416 : resp)
+    (p : proto) (secure : bool) (_ : unit) (_ : N) (e : exch) : unit * outcome wreply :=
+  (tt, send_ex_end shutdown checked ops alt e416 p secure e).
+Definition pair_hist_end (shutdown : bool) (checked : bool) (ops : list pkg_op) (alt : option bytes) (e416 : resp)
+    (p : proto) (drain secure : bool) (exs : list exch) : list (option (outcome wreply)) :=
+  conn_loop unit exch (ex_ans_end shutdown checked ops alt e416) ex_method ex_blen (fun _ => 0) (fun _ e => ex_want e)
+            p drain secure tt COpen 0 1 exs.
+
 Fixpoint first_none {A} (i : N) (l : list (option A)) : option N :=
   match l with
   | [] => None
@@ -846,13 +883,13 @@ Definition x_slot (o : option (outcome wreply)) : xval :=
 (** "proto.pair": the history over one HTTP/1.1 connection (TLS or plain, [secure1]) and over one HTTP/2 connection (TLS)
     input (L checked cfg pkg_ops (L [alt]) err416 (L exchange ...) secure1)
     output (L (L wire_h1 wire_h2) ...), or (L (N 93) i) when request i is not answered on one of the connections *)
-Definition run_pair_gen (drain : bool) (x : xval) : xval :=
+Definition run_pair_gen (drain shutdown : bool) (x : xval) : xval :=
   match x, d_case x with
   | XL [_; _; _; _; _; _; s1], Some (checked, ops, alt, e416, exs) =>
       match d_bool s1 with
       | Some secure1 =>
-          let h1 := pair_hist checked ops alt e416 H1 drain secure1 exs in
-          let h2 := pair_hist checked ops alt e416 H2 drain true exs in
+          let h1 := pair_hist_end shutdown checked ops alt e416 H1 drain secure1 exs in
+          let h2 := pair_hist_end shutdown checked ops alt e416 H2 drain true exs in
           match first_none 0 h1, first_none 0 h2 with
           | None, None => XL (map (fun ab => XL [x_slot (fst ab); x_slot (snd ab)]) (combine h1 h2))
           | Some i, _ => XL [XN 93; XN i]
@@ -862,7 +899,7 @@ Definition run_pair_gen (drain : bool) (x : xval) : xval :=
       end
   | _, _ => bad_input
   end.
-Definition run_pair : xval -> xval := run_pair_gen true.
+Definition run_pair : xval -> xval := run_pair_gen true true.
 
 (** spec component of "proto.pair": the normalised answer both protocols must give, computed without any
     protocol arm — the range specification of C09 on the layer-4 response, the package menu on the
@@ -910,18 +947,18 @@ Definition run_pair_spec (x : xval) : xval :=
     before the repair dfe4d54 (an unread request body stays on the HTTP/1 connection): (no, yes) for the witness. *)
 Definition is_resp (o : option (outcome wreply)) : bool :=
   match o with Some (Ok (WResp _)) | Some (Ok (WClosed _)) => true | _ => false end.
-Definition run_answered_gen (drain : bool) (x : xval) : xval :=
+Definition run_answered_gen (drain shutdown : bool) (x : xval) : xval :=
   match x, d_case x with
   | XL [_; _; _; _; _; _; s1], Some (checked, ops, alt, e416, exs) =>
       match d_bool s1 with
       | Some secure1 =>
-          XL [x_bool (forallb is_resp (pair_hist checked ops alt e416 H1 drain secure1 exs));
-              x_bool (forallb is_resp (pair_hist checked ops alt e416 H2 drain true exs))]
+          XL [x_bool (forallb is_resp (pair_hist_end shutdown checked ops alt e416 H1 drain secure1 exs));
+              x_bool (forallb is_resp (pair_hist_end shutdown checked ops alt e416 H2 drain true exs))]
       | None => bad_input
       end
   | _, _ => bad_input
   end.
-Definition run_answered : xval -> xval := run_answered_gen true.
+Definition run_answered : xval -> xval := run_answered_gen true true.
 Definition run_answered_spec (x : xval) : xval :=
   match d_case x with Some _ => XL [XN 1; XN 1] | None => bad_input end.
 
@@ -979,10 +1016,12 @@ Definition run_burst (p : proto) (x : xval) : xval :=
           let wires := map (fun '(sid, r0, rp) =>
                           (sid, match exof sid with
                                 | Some e => x_outcome x_wreply
+                                              (* (an HTTP/1 connection of "proto.burst1" ends after its one answer: orderly) *)
+                                              (oreceive_end (ex_method e) (match p with H1 => h1_conn_end true true | H2 => EOrderly end)
                                               (send_pipe checked (fun _ => e416) (ex_vary e) (pkg_menu ops) false p true alt (ex_method e)
                                                     (sd_of (ex_path_ok e) (ex_range e))
                                                     (mkResp (rs_version (ex_l4 e)) (rp_status rp) (rp_headers rp) (rp_body rp))
-                                                    (ex_fut e))
+                                                    (ex_fut e)))
                                 | None => bad_input
                                 end)) outs in
           XL (map (fun o => XL [XN (fst o); snd o]) (drop_cancelled ss (fold_right insert_by_sid [] wires)))
@@ -996,7 +1035,7 @@ Definition run_burst_spec (p : proto) (x : xval) : xval :=
   | XL [_; _; _; _; _; _; ss; _], Some (checked, ops, alt, e416, exs) =>
       match d_list d_stream ss with
       | Some strs =>
-          let wires := map (fun '((sid, _, _), e) => (sid, x_outcome x_wreply (send_ex checked ops alt e416 p true e)))
+          let wires := map (fun '((sid, _, _), e) => (sid, x_outcome x_wreply (send_ex_end true checked ops alt e416 p true e)))
                            (combine strs exs) in
           XL (map (fun o => XL [XN (fst o); snd o]) (drop_cancelled ss (fold_right insert_by_sid [] wires)))
       | None => bad_input
@@ -1053,6 +1092,135 @@ Definition run_sbody (x : xval) : xval :=
   | _ => bad_input
   end.
 
+(** ---------------------------------------------------------------------------------------------
+    "requests both protocols can express": the request-HEAD limits of the two front ends
+    --------------------------------------------------------------------------------------------- *)
+(** HTTP/1 ([HttpConnection::accept] -> [parse_http_1(stream, 16 * 1024, ..)] -> [kvarn_async::read::request] ->
+    [read_headers]): the head is read into a buffer that never grows beyond [max_len] = 16384 bytes; [read_more] fails
+    with [HeaderTooLong] when the buffer is full and the blank line has not been seen: a head — request line, every
+    field line, the blank line, line ends included — of more than 16384 bytes is never answered ([accept] fails, the
+    request loop ends, the connection is shut down).
+    HTTP/2 (the h2 crate; kvarn's [h2::server::Builder] sets no [max_header_list_size]): h2 0.4 frame/headers.rs
+    [load_hpack] adds [name.len() + value.len() + 32] for every field, pseudo-headers included (their names counted
+    with the colon), and marks the block over-size as soon as the sum reaches the limit — the default
+    [DEFAULT_SETTINGS_MAX_HEADER_LIST_SIZE] = 16 MiB; an over-size request is answered 431 by h2 itself (proto/streams/
+    recv.rs [recv_headers]) and never reaches kvarn.  (h2 also gives up when [HeaderMap::try_append] fails, beyond
+    24576 fields: out of reach of a head of 16384 bytes, see [head_accepted_by_both].) *)
+Definition H1_MAX_HEAD : N := 16384.
+Definition H2_MAX_HEADER_LIST : N := 16777216.
+Definition blen (b : bytes) : N := N.of_nat (length b).
+(** [per] = what a field costs beyond its name and value: ": " and CRLF on HTTP/1, 32 on HTTP/2 *)
+Fixpoint fields_size (per : N) (h : headers) : N :=
+  match h with
+  | [] => 0
+  | kv :: r => blen (fst kv) + blen (snd kv) + per + fields_size per r
+  end.
+(** "<method> <target> HTTP/1.1" CRLF "host: <authority>" CRLF fields CRLF *)
+Definition h1_head_len (authority m t : bytes) (h : headers) : N :=
+  blen m + 1 + blen t + 1 + 8 + 2 + (4 + blen authority + 4) + fields_size 4 h + 2.
+(** :method, :scheme = "https", :authority, :path, fields *)
+Definition h2_list_size (authority m t : bytes) (h : headers) : N :=
+  (7 + blen m + 32) + (7 + 5 + 32) + (10 + blen authority + 32) + (5 + blen t + 32) + fields_size 32 h.
+Definition h1_head_ok (authority m t : bytes) (h : headers) : bool := h1_head_len authority m t h <=? H1_MAX_HEAD.
+Definition h2_head_ok (limit : N) (authority m t : bytes) (h : headers) : bool := h2_list_size authority m t h <? limit.
+
+(** "proto.head": one request to a page that answers 200 whatever the request says, over a fresh HTTP/1.1 connection
+    and over a fresh HTTP/2 connection: (L cfg (L method target fields body)) -> (L h1 h2), (L) = never answered,
+    (L (N status)).  [limit] = the header-list limit of the HTTP/2 front end. *)
+Definition AUTHORITY : bytes := Eval vm_compute in B "localhost:8443".
+Definition run_head_gen (limit : N) (x : xval) : xval :=
+  match x with
+  | XL [_; XL [XB m; XB t; hs; XB _]] =>
+      match d_list d_hpair hs with
+      | Some h =>
+          XL [ if h1_head_ok AUTHORITY m t h then XL [XN 200] else XL [];
+               if h2_head_ok limit AUTHORITY m t h then XL [XN 200] else XL [XN 431] ]
+      | None => bad_input
+      end
+  | _ => bad_input
+  end.
+Definition run_head : xval -> xval := run_head_gen H2_MAX_HEADER_LIST.
+(** its specification, for the requests the HTTP/1 front end can express: answered, and the same, on both *)
+Definition run_head_spec (x : xval) : xval :=
+  match x with
+  | XL [_; XL [XB m; XB t; hs; XB _]] =>
+      match d_list d_hpair hs with
+      | Some h => if h1_head_ok AUTHORITY m t h then XL [XL [XN 200]; XL [XN 200]] else XL [XN 96]
+      | None => bad_input
+      end
+  | _ => bad_input
+  end.
+
+(** ---------------------------------------------------------------------------------------------
+    HTTP/2: the accept loop of [handle_connection] and streams the client has RESET
+    --------------------------------------------------------------------------------------------- *)
+(** Every request [HttpConnection::accept] yields is either answered by the loop itself (the host's limiter says
+    [LimitAction::Send]: 429) or handed to a task of its own ([spawn(future)]), whose failures are its own.  h2 also yields
+    streams the client has already reset (RST_STREAM read in the same poll as the HEADERS, or while the loop was busy):
+    [send_response] / [send_data] on such a stream fail with a user error, kvarn's [Error::ClientRefusedResponse].
+    [cont] = the repaired loop: on HTTP/2 that failure concerns this stream only — [continue].  [cont = false] is the code
+    before: [ret_log_app_error!] returned from [handle_connection]; the h2 connection is dropped with it, and with the
+    connection every answer that has not been written yet — those of the tasks whose handlers are still running — and
+    every stream not yet accepted.  (What the loop itself answered before is flushed by the poll of the next [accept].) *)
+Record h2req := mkH2Q { hq_sid : N; hq_reset : bool; hq_limited : bool; hq_status : N }.
+(** (stream, status, answered by a task?) for every answer produced, in stream order; is the connection still served? *)
+Fixpoint h2_accept_loop (cont : bool) (qs : list h2req) : list (N * N * bool) * bool :=
+  match qs with
+  | [] => ([], true)
+  | q :: rest =>
+      if hq_limited q && hq_reset q && negb cont then ([], false) else
+      let '(out, alive) := h2_accept_loop cont rest in
+      (if hq_reset q then out
+       else (hq_sid q, (if hq_limited q then 429 else hq_status q), negb (hq_limited q)) :: out, alive)
+  end.
+(** what reaches the client: the loop's own answers, and the tasks' answers if the connection outlives the loop *)
+Definition h2_answered (cont : bool) (qs : list h2req) : list (N * N) * bool :=
+  let '(out, alive) := h2_accept_loop cont qs in
+  (map (fun o => (fst (fst o), snd (fst o))) (filter (fun o => alive || negb (snd o)) out), alive).
+(** the specification: every stream the client did not reset receives its own answer, and the connection goes on *)
+Definition h2_reset_spec (qs : list h2req) : list (N * N) * bool :=
+  (map (fun q => (hq_sid q, if hq_limited q then 429 else hq_status q)) (filter (fun q => negb (hq_reset q)) qs), true).
+
+(** "proto.rst": (L cfg (L request ...) (L reset_index ...) (L (L limited status) ...)) -> (L (L (L sid status) ...) alive):
+    request i is stream 2i+1; the limiter's verdict and the status of the page are inputs *)
+Fixpoint d_h2reqs (i : N) (resets : list N) (l : list xval) : option (list h2req) :=
+  match l with
+  | [] => Some []
+  | XL [lim; XN st] :: rest =>
+      match d_bool lim, d_h2reqs (i + 1) resets rest with
+      | Some lim', Some qs => Some (mkH2Q (2 * i + 1) (existsb (N.eqb i) resets) lim' st :: qs)
+      | _, _ => None
+      end
+  | _ => None
+  end.
+Definition x_h2_answered (r : list (N * N) * bool) : xval :=
+  XL [XL (map (fun a => XL [XN (fst a); XN (snd a)]) (fst r)); x_bool (snd r)].
+Definition run_rst_gen (cont : bool) (x : xval) : xval :=
+  match x with
+  | XL [_; _; rs; XL vs] =>
+      match d_list d_N rs with
+      | Some resets => match d_h2reqs 0 resets vs with
+                       | Some qs => x_h2_answered (h2_answered cont qs)
+                       | None => bad_input
+                       end
+      | None => bad_input
+      end
+  | _ => bad_input
+  end.
+Definition run_rst : xval -> xval := run_rst_gen true.
+Definition run_rst_spec (x : xval) : xval :=
+  match x with
+  | XL [_; _; rs; XL vs] =>
+      match d_list d_N rs with
+      | Some resets => match d_h2reqs 0 resets vs with
+                       | Some qs => x_h2_answered (h2_reset_spec qs)
+                       | None => bad_input
+                       end
+      | None => bad_input
+      end
+  | _ => bad_input
+  end.
+
 Definition protocols_table : list (bytes * (xval -> xval)) :=
   [ (B "proto.pair", run_pair);
     (B "proto.server", run_pair);      (* the same exchanges through complete servers (RunConfig::execute) *)
@@ -1068,4 +1236,8 @@ Definition protocols_table : list (bytes * (xval -> xval)) :=
     (B "proto.burst2", run_burst H2);        (* the same burst spread over two HTTP/2 connections *)
     (B "proto.body", run_body);
     (B "proto.body_spec", run_body_spec);
-    (B "proto.sbody", run_sbody) ].
+    (B "proto.sbody", run_sbody);
+    (B "proto.head", run_head);
+    (B "proto.head_spec", run_head_spec);
+    (B "proto.rst", run_rst);
+    (B "proto.rst_spec", run_rst_spec) ].
